@@ -12,8 +12,14 @@ Ops (ints are `i64`, `<raw>` is `none | one x | many x*`, `<oraw>` is `one x | m
   a.event t | a.out t <out> | a.oe t <out> e* | a.ts t [d] | a.acc t kind d | a.mkt t [d]
   a.addout <out> | a.adderr e* | a.wpe e* | a.feedended          (<out> is td:d | ad:d | px:d | md:d)
   act.c res* | act.o res* | act.x res* / res* | act.g res* / res* / rc ro   (res is s<id> | r<id> | u<id>)
-  eng on|off <ev> [req*] / req* / req*     (ev: shutdown cmdc cmdo ts_on ts_off mkt mktre accre; req is ex:cid,
-                                           exchanges 1 and 2 have a dead link)
+  eng on|off <ev> [req*] / req* / req*     (ev: shutdown cmdc cmdo cmdk ts_on ts_off mkt mktre accre; req is ex:cid,
+                                           exchanges 1 and 2 have a dead link; the groups are the event's own
+                                           requests / the algo cancels / the algo opens; `mkt` is an ACCOUNT
+                                           balance item (historical op name); `cmdk` = Command::CancelOrders, its
+                                           group = the tracked open orders, sorted by exchange, pairwise distinct)
+  eng on|off cmdx req* / req* / req* / req*   (Command::ClosePositions: the strategy's cancels / its opens / the algo
+                                           cancels / the algo opens)
+`n.map k`, `n.mut k`, `o.map k`, `o.mut k` are `bad-op` when an item + k leaves i64 (the closure is the harness's).
 -/
 namespace BarterModel.Driver.C03N
 open BarterModel.Driver BarterModel.Collections
@@ -82,6 +88,14 @@ def fmtOrd : Ordering → String
   | .lt => "lt"
   | .eq => "eq"
   | .gt => "gt"
+
+/-- every item + k stays inside `i64` -/
+def shiftOk (items : List Int) (k : Int) : Bool :=
+  items.all fun x => decide (-9223372036854775808 ≤ x + k ∧ x + k ≤ 9223372036854775807)
+
+def shiftOf : List String → Option Int
+  | [_, k] => k.toInt?
+  | _ => none
 
 /-! ### model -/
 
@@ -207,11 +221,16 @@ def parseReq (s : String) : Option Req :=
   | [e, c] => do some ((← e.toNat?), (← c.toNat?))
   | _ => none
 
+/-- requests sorted by exchange (the engine walks the instruments in index order) and pairwise distinct -/
+def ordersOk (reqs : List Req) : Bool :=
+  reqs.Pairwise (fun a b => decide (a.1 ≤ b.1) && a != b)
+
 def parseEngEv (ev : String) (reqs : List Req) : Option EngEv :=
   match ev with
   | "shutdown" => if reqs.isEmpty then some .shutdown else none
   | "cmdc" => some (.cmdCancel reqs)
   | "cmdo" => some (.cmdOpen reqs)
+  | "cmdk" => if ordersOk reqs then some (.cmdCancelOrders reqs) else none
   | "ts_on" => if reqs.isEmpty then some .tsOn else none
   | "ts_off" => if reqs.isEmpty then some .tsOff else none
   | "mkt" => if reqs.isEmpty then some .mkt else none
@@ -227,18 +246,25 @@ structure EngCase where
   algoC : List Req
   algoO : List Req
 
+def evReqs : EngEv → List Req
+  | .cmdCancel r | .cmdOpen r | .cmdCancelOrders r => r
+  | .cmdClose c o => c ++ o
+  | _ => []
+
 def parseEng : List String → Option EngCase
   | onoff :: ev :: rest => do
     let enabled ← (match onoff with | "on" => some true | "off" => some false | _ => none)
-    match splitSlash rest with
-    | [g0, g1, g2] =>
-      let ev ← parseEngEv ev (← g0.mapM parseReq)
-      let c ← g1.mapM parseReq
-      let o ← g2.mapM parseReq
-      -- exchanges 0..3 only
-      if (match ev with | .cmdCancel r | .cmdOpen r => r | _ => []).any (·.1 > 2) || c.any (·.1 > 2) || o.any (·.1 > 2)
-      then none else some ⟨enabled, ev, c, o⟩
-    | _ => none
+    let (ev, c, o) ←
+      (match ev, splitSlash rest with
+       | "cmdx", [gc, go, g1, g2] => do
+         some (EngEv.cmdClose (← gc.mapM parseReq) (← go.mapM parseReq), (← g1.mapM parseReq), (← g2.mapM parseReq))
+       | "cmdx", _ => none
+       | ev, [g0, g1, g2] => do
+         some ((← parseEngEv ev (← g0.mapM parseReq)), (← g1.mapM parseReq), (← g2.mapM parseReq))
+       | _, _ => none)
+    -- exchanges 0..2 only
+    if (evReqs ev).any (·.1 > 2) || c.any (·.1 > 2) || o.any (·.1 > 2)
+    then none else some ⟨enabled, ev, c, o⟩
   | _ => none
 
 def obsEng (c : EngCase) : List String :=
@@ -267,6 +293,10 @@ def model : Drv St where
         match parseRaw rest with
         | some v => (s, [line "eq" (fmtBool (NOM.eq s.n v)), line "ord" (fmtOrd (NOM.cmp s.n v))])
         | none => (s, ["bad-op"])
+      else if (op == "n.map" || op == "n.mut") && !(match shiftOf toks with | some k => shiftOk s.n.asRef k | none => true) then
+        (s, ["bad-op"])
+      else if (op == "o.map" || op == "o.mut") && !(match shiftOf toks with | some k => shiftOk s.o.asRef k | none => true) then
+        (s, ["bad-op"])
       else if op.startsWith "n." then
         match parseNOp toks with
         | some nop => let n := nop.apply s.n; ({ s with n := n }, obsN n)
@@ -370,10 +400,20 @@ def oomCanon : OOM Int → Bool
   | .one _ => true
   | .many l => decide (2 ≤ l.length)
 
-/-- abstract `extend`, with the boundary bookkeeping -/
+/-- every item is the same: every permutation of the sequence is the sequence -/
+def allSame (l : List Int) : Bool :=
+  match l with
+  | [] => true
+  | x :: xs => xs.all (· == x)
+
+/-- abstract `extend`, with the boundary bookkeeping: the order "self, then other" is kept exactly
+where `nom_extend_order_iff` / `oom_extend_order_iff` prove it (`Spec.reorders` false: not one item
+extended by two or more items that are not all equal to it; for a value written down as `Many([x])`
+this is conservative), and it is determined again as soon as all items are equal. -/
 def Seq.extend (s : Seq) (l : List Int) : Seq :=
-  { items := Spec.extend s.items l, canon := s.canon,
-    ordered := s.ordered && !(s.items.length == 1 && decide (2 ≤ l.length)) }
+  let items := Spec.extend s.items l
+  { items := items, canon := s.canon,
+    ordered := (s.ordered && !Spec.reorders s.items l) || allSame items }
 
 def Seq.map (s : Seq) (k : Int) : Seq := { s with items := Spec.map (· + k) s.items }
 
@@ -422,7 +462,7 @@ def specObsA (s : SpecSt) : List String :=
 def specUnrec (c o : List Int) : List String :=
   let all := c ++ o
   [ line "nunrec" (toString all.length), line "unrecbag" (ints (sortInts all)) ]
-  ++ (if c.length == 1 && decide (2 ≤ o.length) then []
+  ++ (if Spec.reorders c o then []
       else [ line "unrec" (" ".intercalate (specShape all :: all.map toString)),
              line "actunrec" (" ".intercalate (specShape all :: all.map toString)) ])
 
@@ -442,10 +482,17 @@ def spec : Drv SpecSt where
         match parseRaw rest with
         | some v =>
           -- equality of values is equality of sequences when both representations are determined
+          -- ... and then the derived order is the length class first, the items lexicographically within
+          -- a class (nom_cmp_of_canonical)
           if s.n.canon && s.n.ordered && nomCanon v then
-            (s, [line "eq" (fmtBool (decide (s.n.items = v.asRef)))])
+            (s, [line "eq" (fmtBool (decide (s.n.items = v.asRef))),
+                 line "ord" (fmtOrd (Spec.cmpSeq s.n.items v.asRef))])
           else (s, [])
         | none => (s, ["bad-op"])
+      else if (op == "n.map" || op == "n.mut") && !(match shiftOf toks with | some k => shiftOk s.n.items k | none => true) then
+        (s, ["bad-op"])
+      else if (op == "o.map" || op == "o.mut") && !(match shiftOf toks with | some k => shiftOk s.o.items k | none => true) then
+        (s, ["bad-op"])
       else if op.startsWith "n." then
         match parseNOp toks with
         | some nop =>
@@ -472,7 +519,8 @@ def spec : Drv SpecSt where
         match parseORaw rest with
         | some v =>
           if s.o.canon && s.o.ordered && oomCanon v then
-            (s, [line "oeq" (fmtBool (decide (s.o.items = v.asRef)))])
+            (s, [line "oeq" (fmtBool (decide (s.o.items = v.asRef))),
+                 line "oord" (fmtOrd (Spec.cmpSeq s.o.items v.asRef))])
           else (s, [])
         | none => (s, ["bad-op"])
       else if op == "o.fromn" then
@@ -551,20 +599,17 @@ def spec : Drv SpecSt where
       else if op == "eng" then
         match parseEng rest with
         | some c =>
+          -- the failures of the stage that failed, as (cancel side, open side), and their concatenation
+          let parts := specErrorParts deadLink c.enabled c.ev c.algoC c.algoO
           let all := specEngineErrors deadLink c.enabled c.ev c.algoC c.algoO
-          -- the boundary: exactly one failed algo cancel followed by two or more failed algo opens
-          let cmdFailed :=
-            match c.ev with
-            | .cmdCancel r => !(failedSends deadLink r).isEmpty
-            | .cmdOpen r => !(failedSends deadLink r).isEmpty
-            | _ => false
-          let ec := if cmdFailed then [] else failedSends deadLink (c.algoC.filter (!refused ·))
-          let eo := if cmdFailed then [] else failedSends deadLink (c.algoO.filter (!refused ·))
           let outs := specEngineOutputs deadLink c.enabled c.ev c.algoC c.algoO
+          -- `errors` (the exact order) is printed exactly where `engine_audit_errors` proves the request order
+          -- is kept: not `AuditReorders` (one cancel-side failure, two or more open-side failures not all
+          -- equal to it - on the ClosePositions command path or in the generation stage)
           (s, [ line "outputs" (" ".intercalate (specShape outs :: outs.map fmtOut)),
                 line "nerr" (toString all.length), line "errbag" (nats (sortNats all)),
                 line "terminal" (fmtBool (c.ev.terminal || !all.isEmpty)) ]
-              ++ (if ec.length == 1 && decide (2 ≤ eo.length) && all.length == ec.length + eo.length then []
+              ++ (if Spec.reorders parts.1 parts.2 then []
                   else [line "errors" (" ".intercalate (specShape all :: all.map toString))]))
         | none => (s, ["bad-op"])
       else (s, ["bad-op"])
